@@ -227,7 +227,7 @@ def _least_common_subsumers(
 
 
 def _most_informative_lcs(synset1: Synset, synset2: Synset, ic: Freq) -> Synset:
-    pos_ic = ic[synset1.pos]
+    pos_ic = ic[ADJ if synset1.pos == ADJ_SAT else synset1.pos]
     lcs = _least_common_subsumers(synset1, synset2, False)
     return max(lcs, key=lambda ss: pos_ic[ss.id])
 
